@@ -24,6 +24,7 @@ PARAM_LISTS = {
     "P1": [("?x", "t1")],
     "P2": [("?x", "t1"), ("?y", "t1")],
     "P3": [("?x", "t3"), ("?y", "t1")],
+    "P4": [("?x", "t1"), ("?u", "t2"), ("?y", "t1")],  # equal types not adjacent
 }
 
 
@@ -79,7 +80,7 @@ def problem_text(objects=OBJECTS, name="pu", domain="u", init=(), goal=()):
 # literals available for a parameter list
 # --------------------------------------------------------------------------------------------
 def t1_terms(params, const):
-    ts = [n for n, t in params]  # t1 or t3 (t3 <= t1)
+    ts = [n for n, t in params if t in ("t1", "t3")]  # t3 <= t1
     if const:
         ts.append("k")
     return ts
@@ -101,7 +102,7 @@ def bool_literals(params, const, extra_terms=()):
 
 
 def eq_literals(params):
-    names = [n for n, _ in params]
+    names = [n for n, t in params if t in ("t1", "t3")]
     out = []
     for a, b in itertools.permutations(names, 2):
         out.append(["=", a, b])
@@ -133,7 +134,10 @@ def num_exprs(rng, params, const, depth=1, extra_terms=()):
                 return rng.choice(CONSTS)
             return rng.choice(leaves)
         op = rng.choice(["+", "-", "*", "/"])
-        return [op, gen(d - 1), gen(d - 1)]
+        l, r = gen(d - 1), gen(d - 1)
+        if op == "/" and isinstance(r, str) and float(r) == 0.0:
+            r = "2"  # a division by the literal 0 has no meaning
+        return [op, l, r]
 
     return gen(depth)
 
@@ -410,7 +414,7 @@ def sampled_programs(seed: int, n: int, want="pre"):
     while len(out) < n:
         fs = subsets[i % len(subsets)]
         i += 1
-        pl = rng.choice(["P2", "P2", "P2", "P1", "P3", "P0"])
+        pl = rng.choice(["P2", "P2", "P2", "P1", "P3", "P0", "P4"])
         const = rng.random() < 0.6
         params = PARAM_LISTS[pl]
         tree = precondition(rng, params, const, fs) if want == "pre" else effect(rng, params, const, fs)
